@@ -81,22 +81,22 @@ def gen_calls(seed, n):
     shapes = [(1, 1, 1), (1, 1, 2), (1, 2, 1), (1, 2, 2), (1, 2, 3), (1, 3, 3), (1, 3, 4), (1, 4, 4),
               (1, 1, 5), (1, 5, 1), (2, 2, 2), (3, 2, 2), (1, 5, 3)]
     for k in range(n):
-        a = k % 7
-        if a == 0:
+        a = k % 9
+        if a in (0, 7):
             nv = rnd.choice([1, 2, 3, 4, 5, 7, 8, 12, 16])
             maxd = int(np.ceil(np.log2(nv))) if nv > 1 else 0
             calls.append(("RandomBinaryTree", dict(num_variables=nv,
                                                    depth=rnd.choice([None] + list(range(0, maxd + 1))),
-                                                   num_repetitions=rnd.choice([1, 1, 2, 3]),
+                                                   num_repetitions=rnd.choice([1, 2, 2, 3]),
                                                    seed=rnd.randrange(1000))))
-        elif a == 1:
+        elif a in (1, 8):
             nv = rnd.choice([1, 2, 3, 4, 6, 9])
             order = None
             if rnd.random() < 0.5:
                 order = list(range(nv))
                 rnd.shuffle(order)
             calls.append(("LinearTree", dict(num_variables=nv, num_repetitions=rnd.choice([1, 2, 3]),
-                                             ordering=order, randomize=rnd.random() < 0.4,
+                                             ordering=order, randomize=rnd.random() < 0.6,
                                              seed=rnd.randrange(1000))))
         elif a == 2:
             calls.append(("FullyFactorized", dict(num_variables=rnd.choice([1, 2, 3, 5, 8]),
@@ -245,7 +245,7 @@ def run(pid, tier, seed, rule, assumptions):
     rep = runner.Report(pid, tier, seed)
     rep.assumptions = assumptions
     q = tier == "quick"
-    n = 210 if q else 4200
+    n = 840 if q else 8400
     calls = gen_calls(seed, n)
     os.makedirs(tlcrun.WORK, exist_ok=True)
     jobs = [(k + 1, a, kw, False, tlcrun.WORK) for k, (a, kw) in enumerate(calls)]
